@@ -147,9 +147,10 @@ func runC03(c *Ctx) []Violation {
 		if e.Class == run.ClsPanic {
 			vs := mk("C03.panic-read", w.Format+": Read panics: "+clipS(e.Err, 160), "",
 				fmt.Sprintf("Read #%d panicked: %s", i+1, e.Err), panicSite(e.Stack))
+			// (repaired in /repo since; the matcher stays, inert unless the finding is listed as open again)
 			// known finding: the target (FINAL_OUTPUT) xpath is evaluated by the readers through
 			// idr.MatchAny, which does not guard against the xpath engine's evaluation-time panics
-			if strings.Contains(e.Stack, "omniparser/idr.MatchAny(") && strings.Contains(e.Stack, "antchfx/xpath") && c.FindingOpen("target-xpath-eval-panic") // (fixed since: the matcher stays, inert, for trees without the repair) {
+			if strings.Contains(e.Stack, "omniparser/idr.MatchAny(") && strings.Contains(e.Stack, "antchfx/xpath") && c.FindingOpen("target-xpath-eval-panic") {
 				vs[0].Finding = "target-xpath-eval-panic"
 				vs[0].What = "an evaluation-time error of the xpath engine in the FINAL_OUTPUT target filter (idr.MatchAny in a reader) panics out of Read: " + clipS(e.Err, 100)
 			}
